@@ -28,10 +28,11 @@ POISON = "(]"  # can not parse in any code context
 # --------------------------------------------------------------------------- source generator
 
 class SrcGen:
-    def __init__(self, rng: random.Random):
+    def __init__(self, rng: random.Random, fstrings: bool = False):
         self.rng = rng
         self.k = 0
         self.lines: List[str] = []
+        self.fstrings = fstrings  # only for workloads whose oracle does not count tokens (E5 direct)
 
     def tok(self) -> str:
         self.k += 1
@@ -48,6 +49,12 @@ class SrcGen:
         p = " " * ind
         kind = r.choice(["assign_call", "call", "list", "ifexp", "multi", "aug", "semi", "assign_call", "call"])
         t = self.tok
+        if self.fstrings and r.random() < 0.3:
+            self.lines.append(p + r.choice([
+                "{a}(f\"{{f'{{ {b} }}'}} first\")", "{a} = f'{{ {b} }} and {{{c}!r}}'", "{a} = f\"\"\"{{{b}}} text\"\"\"",
+                "{a}(f\"{{ {b}.name }} second\", f'{{{c}}}')", "{a} = f\"{{f'{{ {b} }}'}}{{ {c} }}\"",
+            ]).format(a=t(), b=t(), c=t()))
+            return
         if kind == "assign_call":
             self.lines.append(f"{p}{t()} = {t()}({t()}, {t()} + {t()}){self.comment()}")
         elif kind == "call":
